@@ -33,8 +33,6 @@ import (
 	"go/constant"
 	"go/token"
 	"go/types"
-	"os"
-	"path/filepath"
 	"sort"
 	"strings"
 )
@@ -1472,12 +1470,11 @@ func (g *kgen) translate(k *kfunc) {
 func runKernels(specs []kernelSpec, outFile string, requires string) error {
 	err := runKernels1(specs, outFile, requires)
 	if err != nil {
-		// a kernel left the subset (or disappeared): a stale translation must not keep the tie theorems
-		// provable, so the file goes and everything that depends on it stops building
-		base := strings.TrimSuffix(filepath.Join(outDir, outFile), ".v")
-		for _, ext := range []string{".v", ".vo", ".vos", ".vok", ".glob"} {
-			_ = os.Remove(base + ext)
-		}
+		// a kernel left the subset (or disappeared): a stale translation must not keep the tie theorems provable.
+		// The file is replaced by one without the definitions, so everything that depends on it stops building
+		// and the properties concerned report the broken obligation.
+		msg := strings.NewReplacer("(*", "( *", "*)", "* )").Replace(err.Error())
+		writeIfChanged(outFile, []byte(genHeader+"(* TRANSLATION FAILED: "+msg+" *)\nFrom V Require Import Common.Base.\nDefinition translation_failed : bool := true.\n"))
 	}
 	return err
 }
@@ -1609,13 +1606,16 @@ var kernelSpecsMore []kernelSpec
 
 func init() {
 	register("kernels", func() error {
-		if err := runKernels(kernelSpecs, "Kernels_gen.v", ""); err != nil {
-			return err
-		}
+		err1 := runKernels(kernelSpecs, "Kernels_gen.v", "")
 		if len(kernelSpecsMore) == 0 {
-			return nil
+			return err1
 		}
-		return runKernels(append(append([]kernelSpec{}, kernelSpecs...), kernelSpecsMore...), "KernelsMore_gen.v", "")
+		// both files are always (re)written: a failure of the first list must not leave a stale second file
+		err2 := runKernels(append(append([]kernelSpec{}, kernelSpecs...), kernelSpecsMore...), "KernelsMore_gen.v", "")
+		if err1 != nil {
+			return err1
+		}
+		return err2
 	})
 	// kernels over slices: index reads/writes with Go's bounds checks explicit (None = run-time panic), make,
 	// len; loop fuel from the slice length.  go_make / go_upd are defined in coq/Tie/GoSem.v.
